@@ -1,0 +1,9 @@
+//go:build verif
+
+// Verification contracts for package cache, property C22. Comment-only; read by /verif/govc.
+// The cache key of (topic key, partition, base offset); spec and injectivity lemma in /verif/spec/topickeys.spec.
+
+package cache
+
+//@ func makeKey
+//@   ensures [C22.shape.cacheKey] result == c22CacheKey(topic, fmtd(partition), fmtd(baseOffset))
